@@ -59,6 +59,15 @@ var (
 	known     []KnownFinding
 )
 
+// repoDir is the nfpm tree under test: /repo for every registered check; VERIF_REPO points experiments
+// (mutation screening in scratch worktrees) at another checkout together with a harness copy whose go.mod replaces to it.
+func repoDir() string {
+	if d := os.Getenv("VERIF_REPO"); d != "" {
+		return d
+	}
+	return "/repo"
+}
+
 func verifDir() string {
 	if d := os.Getenv("VERIF_DIR"); d != "" {
 		return d
